@@ -169,15 +169,40 @@ def run(ctx):
 
 
 def replay(path):
+    """Re-run the recorded input on the current code and let the specification decide it again."""
+    import shutil
     build_harness()
     r = json.load(open(path))
     print(f"recorded: {r.get('desc', '')[:1500]}")
-    p = subprocess.run([str(VH), "c16-replay", f"in={path}"], stdout=subprocess.PIPE, stderr=subprocess.PIPE, text=True)
-    print("the real code now gives:")
-    print(p.stdout[:6000])
-    if p.returncode != 0:
-        print(p.stderr[-2000:])
-    return 0
+    ctx = Ctx("C16", "replay")
+    try:
+        out = ctx.work / "replay.ndjson"
+        vh(["c16-replay", f"in={path}"], stdout_path=out)
+        lines = read_ndjson(out)
+        print("the real code now gives:")
+        for e in lines[:40]:
+            print("  " + _short(e, 1200))
+        if "ev" in lines[0]:
+            _, _, rej = validate_traces(ctx, "Trace_Dvi", "Trace_Dvi.cfg", out)
+            bad = [f"trace rejected at event {x['at']}: {_short(x['unmatched'], 600)}" for x in rej]
+        else:
+            spec = "Trace_DviEnc" if lines[0]["fn"] in ("rt", "dec") else "Trace_DviPipe"
+            _, vs = validate_calls(ctx, spec, spec + ".cfg", out, parts=1)
+            bad = []
+            for e, v in vs:
+                if v["key"] in SKIP_KEYS:
+                    continue
+                if ctx.finding_for(v["key"]):
+                    print(f"KNOWN-FINDING: property=C16 {v['key']}")
+                    continue
+                bad.append(f"{v['key']}: the specification says {_short(v.get('want'), 600)}")
+        for b in bad:
+            print("STILL REJECTED by the specification: " + b)
+        if not bad:
+            print("accepted by the specification now")
+        return 1 if bad else 0
+    finally:
+        shutil.rmtree(ctx.work, ignore_errors=True)
 
 
 def selftest(ctx):
